@@ -1078,6 +1078,14 @@ public:
 		if (!CurFn.empty())
 			o["fn"] = CurFn;
 		const VarDecl* Def = V->getDefinition();
+		if (!Def)
+			Def = V->getAnyInitializer() ? V : nullptr;
+		if (Def && Def->getAnyInitializer()) {
+			const Expr* I = strip(Def->getAnyInitializer());
+			if (const auto* SL = dyn_cast_or_null<StringLiteral>(I))
+				if (SL->getCharByteWidth() == 1)
+					o["sval"] = SL->getBytes().str();
+		}
 		if (Def && Def->hasInit() && !Def->getInit()->isValueDependent()) {
 			json::Object tmp;
 			tryFold(tmp, Def->getInit());
